@@ -1,6 +1,8 @@
 package num
 
 import (
+	"errors"
+
 	"github.com/invopop/jsonschema"
 )
 
@@ -200,7 +202,21 @@ func (p *Percentage) UnmarshalText(value []byte) error {
 // UnmarshalJSON ensures percentages will be parsed even if defined as
 // numbers in the source JSON.
 func (p *Percentage) UnmarshalJSON(value []byte) error {
-	return p.UnmarshalText(unquote(value))
+	text, null, err := jsonText(value)
+	if err != nil || null {
+		return err
+	}
+	if text == "" {
+		// not to be confused with the empty text PercentageFromString
+		// reads as zero
+		return errors.New("invalid percentage, empty string")
+	}
+	result, err := PercentageFromString(text)
+	if err != nil {
+		return err
+	}
+	*p = result
+	return nil
 }
 
 // JSONSchema provides a representation of the struct for usage in Schema.
